@@ -239,6 +239,25 @@ def s_while_else(a):
 '''
 
 
+def throwaway_sources(n):
+    """Small functions of varying control-flow shape (elif chains of different length, loops with and
+    without break / else), each different from its predecessor."""
+    out = []
+    for i in range(n):
+        k = i % 6
+        lines = ["def f(a, b):"]
+        if i % 3 == 1:
+            lines += ["    for x in a:", "        if x:", "            break" if i % 2 else "            continue",
+                      "    else:" if i % 4 == 1 else "    if b:", "        b = 1"]
+        elif i % 3 == 2:
+            lines += ["    while a:", "        a = a - 1", "        if a == b:", "            return %d" % i]
+        for j in range(k):
+            lines += ["    %s a == %d:" % ("if" if j == 0 else "elif", j), "        return %d" % (i + j)]
+        lines += ["    return b"]
+        out.append("\n".join(lines) + "\n")
+    return out
+
+
 def functions_of(mod):
     for n, o in list(vars(mod).items()):
         if isinstance(o, types.FunctionType) and o.__module__ == mod.__name__:
@@ -284,6 +303,20 @@ def main():
             text, meta = export_function(f, label)
             fh.write(text)
             metas.append(meta)
+        # functions that are compiled, analysed and dropped one after the other: the next code object may
+        # sit at the address of the previous one, so anything the library remembers per object (by identity)
+        # shows up as the control flow of an earlier function (seeded change C09-r9)
+        import gc
+        for i, src in enumerate(throwaway_sources(60 if tier == "quick" else 600)):
+            ns = {}
+            exec(compile(src, "<throwaway %d>" % i, "exec"), ns)
+            f = ns["f"]
+            if in_domain(f.__code__):
+                text, meta = export_function(f, "throwaway.%d" % i)
+                fh.write(text)
+                metas.append(meta)
+            del f, ns
+            gc.collect()
     json.dump({"version": "%d.%d" % sys.version_info[:2], "skipped_out_of_domain": skipped, "metas": metas},
               open(os.path.join(outdir, "metas.json"), "w"))
 
